@@ -220,6 +220,17 @@ def r2_check_before_write(rep, ctx):
                 if all(whole_registry(a) for a in alternatives(t)) and filt and scfg.dominated_by_node(scfg.node_of(tstores[0]), lambda k, a, st_=st_: a is st_):
                     ok_iter = True
                     collectors |= {t_.id for t_ in st_.targets if isinstance(t_, ast.Name)}
+    # operands of the check: (mapping of the registered system, categories of the *new* template)
+    P_MAP = ("param", st_fn.params.index("units_mapping"), "units_mapping")
+    all_checks = [c for c in own_nodes(st_fn.node) if isinstance(c, ast.Call) and sres.term(c.func) == ("field", "_CheckUnitSystemMapping")]
+    for c in all_checks:
+        a_ = [sres.term_in_context(x) for x in c.args[:2]]
+        from ..terms import params_in
+        sys_side = len(a_) == 2 and all(x[0] == "call" and x[1][0] == "attr" and x[1][2] == "GetUnitsMapping" and x[1][1][0] == "elem" and all(whole_registry(y) for y in alternatives(x[1][1][1]))
+                                         for x in alternatives(a_[0]))
+        tmpl_side = len(a_) == 2 and any(x == P_MAP for x in walk(a_[1])) and not any(x[0] == "elem" for x in walk(a_[1]))
+        rep.check(bool(sys_side and tmpl_side), "C17.R2", "SetTemplate:check-operands", "each registered system's mapping is checked against the categories of the new template",
+                  "the coverage check is called with (%s): not (mapping of the registered system, categories of the new template) - a template that a registered system does not cover is accepted" % ", ".join(show(x, 70) for x in a_), node=c, fn=st_fn)
     rep.check(ok_iter, "C17.R2", "SetTemplate:every-system-checked", "the template is stored only after a loop over all registered systems checked each of them against it",
               "the new template can be stored without checking every registered system against it (the loop does not iterate the registry itself on every path, or skips systems): a template that a registered system does not cover is accepted",
               node=tstores[0] if tstores else None, fn=st_fn)
